@@ -1766,6 +1766,13 @@ func (b *Bitmap) unmarshalPilosaRoaring(data []byte) error {
 		if int(offset)+size > len(data) {
 			return fmt.Errorf("container data out of bounds: off=%d, size=%d, len=%d", offset, size, len(data))
 		}
+		// Containers are laid out one after the other and the operation log
+		// starts where the last one ends. A container that starts before the
+		// end of its predecessor would make that position meaningless (and a
+		// log trimmed there would cut into mapped container data).
+		if int(offset) < opsOffset {
+			return fmt.Errorf("malformed bitmap, container %d data at off=%d overlaps preceding data ending at %d", i, offset, opsOffset)
+		}
 		switch c.typ() {
 		case containerRun:
 			runCount := binary.LittleEndian.Uint16(data[offset : offset+runCountHeaderSize])
